@@ -329,6 +329,19 @@ pub fn run(ctx: &Ctx, rep: &mut Report) {
         }
     }
     if ctx.replay.is_none() {
+        // explicit bounds next to `ignore` in ONE attribute, and a stopping variant-level bound on an EARLIER variant
+        for entry in Entry::BOTH {
+            let head = match entry {
+                Entry::Attr => "#[derive_ex(Debug)]".to_string(),
+                Entry::Derive => "#[derive(Ex)]\n#[derive_ex(Debug)]".to_string(),
+            };
+            let defs = format!("pub struct NoDebug;\n{head}\npub struct X<T> {{ pub a: u8, #[debug(ignore, bound())] pub b: T, pub c: u8 }}\n{head}\npub enum Y<T> {{ A(u8, #[debug(bound(T: ::core::marker::Copy), ignore)] T), B }}\n{head}\npub enum Z<T, U> {{ #[debug(bound())] A(#[debug(ignore)] T), B(Vec<U>), C {{ u: U }} }}");
+            let code = format!("use derive_ex::{{derive_ex, Ex}};\n{defs}\npub fn run() -> String {{ format!(\"{{:?}}|{{:?}}|{{:?}}|{{:?}}|{{:?}}\", X {{ a: 1, b: NoDebug, c: 3 }}, Y::A(1, NoDebug), Z::<NoDebug, u8>::A(NoDebug), Z::<NoDebug, u8>::B(vec![1]), Z::<NoDebug, u8>::C {{ u: 2 }}) }}\n");
+            let mut atoms = BTreeSet::new();
+            atoms.insert(format!("entry={}", entry.name()));
+            atoms.insert("kind=ignore-next-to-a-bound".to_string());
+            x.push(XCase { text: format!("{} {defs}", entry.name()), code, expected: "X { a: 1, c: 3 }|A(1)|A|B([1])|C { u: 2 }".into(), atoms, nontrivial: true, detail: json!({"kind": "ignore-next-to-a-bound", "entry": entry.name(), "item": defs}), what: format!("derive_ex(Debug) via {}: ignore and bound(..) in one attribute; a stopping bound on an earlier variant", entry.name()), inner: 5, symptom: "debug-output-differs-from-std-twin".into(), must_compile: true });
+        }
         // enums without variants have no value to print, but the impl must compile and be usable through Option<X>
         for (gen, inst) in [("", ""), ("<T: ::core::marker::Copy>", "<u8>")] {
             for entry in Entry::BOTH {
